@@ -11,7 +11,11 @@ Tie:
        its single-step deviations (delete, duplicate, swap adjacent, retype, insert a foreign type, inject a genuine
        message of another mode, ChangeCipherSpec early / late / twice / missing).  Protected flights are re-sealed
        for the receiver with the library's own AES-GCM, so the receiver sees correctly protected but illegal
-       sequences.  Every delivery is one step of the extracted model (pre-state, input, oracle answers read off the
+       sequences.  CONSISTENT deviations (`mtamper`): for every message of every legal trace the SENDING peer omits it /
+       follows it with / replaces it by a genuine message of another mode in its OWN transcript hash as well as on the wire,
+       so its CertificateVerify / Finished / traffic secrets are right for the deviating sequence (a self-consistent
+       misbehaving peer): only the receiver's state machine can stop such a handshake.  Cells on which a gate sweep
+       disagrees are turned into such histories first.  Every delivery is one step of the extracted model (pre-state, input, oracle answers read off the
        bytes / the post-state) and must agree on outcome and post-state.
 Search oracle (Impl vs Spec, never via the model): whenever a side reports completion, the messages it accepted form
 a legal sequence of the negotiated mode (grammar re-implemented here from the RFC figures, cross-checked against the
@@ -50,9 +54,14 @@ CONFIGS = {
     "t13_hrr":          ([], "cv=4 sv=4 cgrp=29,23,24 nshare=1 sgrp=23"),
     "t13c_12s":         ([], "cv=3,4 sv=3"),
     "t12c_13s":         ([], "cv=3 sv=3,4"),
+    "t12_ocsp":         ([], "cv=3 sv=3 key=ec suite=c02b ocsp=1"),
 }
+# the honest run of these does not complete (the stapled test OCSP response is signed by a responder the client's CA set does
+# not cover: bad_certificate_status_response); they are there for the states they reach (CERTIFICATE_STATUS) and their deviations
+HONEST_INCOMPLETE = {"t12_ocsp"}
+SLOT_TYPE = {1: 12, 2: 13, 3: 15, 4: 4, 5: 13, 6: 4, 7: 2, 8: 1, 9: 1, 10: 2}      # handshake type of the message in each slot
 QUICK = ["t12_ecdhe", "t12_rsa", "t12_cauth", "t12_ticket_issue", "t12_resume_id", "t12_resume_ticket", "t12_psk_cbc",
-         "t13", "t13_cauth", "t13_ticket_issue", "t13_resume", "t13_psk", "t13_hrr", "t13c_12s", "t12c_13s"]
+         "t13", "t13_cauth", "t13_ticket_issue", "t13_resume", "t13_psk", "t13_hrr", "t13c_12s", "t12c_13s", "t12_ocsp"]
 
 # genuine messages of other modes, kept in harness slots (slots survive `new`): slot -> (how to obtain, what it is)
 SLOT_FILL = [
@@ -113,15 +122,40 @@ def parse_steps(line):
 
 
 # ------------------------------------------------------------------ the grammar, once more (independent of the Coq text)
+def must_staple():
+    """the build's policy, as the translator saw it (USE_OCSP_MUST_STAPLE)"""
+    try:
+        return "h_ocsp_must_staple : bool := true" in open(os.path.join(vlib.COQ, "Gen", "ConstsHs.v")).read()
+    except OSError:
+        return True
+
+
+MUST_STAPLE = None
+ACCEPT_EMPTY = None        # SERVER_WILL_ACCEPT_EMPTY_CLIENT_CERT_MSG
+CERT0 = "CERT0"            # a Certificate message with an empty certificate_list (told by its length)
+
+
+def policy(name):
+    try:
+        return ("h_%s : bool := true" % name) in open(os.path.join(vlib.COQ, "Gen", "ConstsHs.v")).read()
+    except OSError:
+        return False
+
+
 def legal_sequences(md):
     """all sequences a receiver in mode md may get before completion (lists of type numbers / 'C'), RFC figures"""
+    global ACCEPT_EMPTY
+    if ACCEPT_EMPTY is None:
+        ACCEPT_EMPTY = policy("server_accepts_empty_client_cert")
     out = []
     sv = md["server"]
     if md["v13"]:
         psk = md["res"] == "yes"
         if sv:
             base = [CH] + ([CH] if md["hrr"] else []) + ([EOED] if md["early"] else [])
-            tails = [[CERT, FIN], [CERT, CVFY, FIN]] if md["cauth"] else [[FIN]]
+            # a Certificate that carries a certificate is followed by CertificateVerify; an empty one (only where the build
+            # accepts it) is not
+            tails = ([[CERT, CVFY, FIN]] + ([[CERT0, FIN]] if ACCEPT_EMPTY else [])) if md["cauth"] else [[FIN]]
             out = [base + t for t in tails]
         else:
             base = ([SH] if md["hrr"] else []) + [SH, EE]
@@ -134,7 +168,7 @@ def legal_sequences(md):
     if sv:
         if full:
             if md["cauth"]:
-                out += [[CH, CERT, CKE, "C", FIN], [CH, CERT, CKE, CVFY, "C", FIN]]
+                out += [[CH, CERT, CKE, CVFY, "C", FIN]] + ([[CH, CERT0, CKE, "C", FIN]] if ACCEPT_EMPTY else [])
             else:
                 out += [[CH, CKE, "C", FIN]]
         if abbr:
@@ -143,7 +177,11 @@ def legal_sequences(md):
     nst = [NST] if md["newticket"] else []
     if full:
         kex = md["kex"]
-        certs = [[]] if kex in ("psk", "dhepsk") else ([[CERT], [CERT, CSTAT]] if md["ocsp"] else [[CERT]])
+        global MUST_STAPLE
+        if MUST_STAPLE is None:
+            MUST_STAPLE = must_staple()
+        # RFC 6066: CertificateStatus MAY be omitted - but not towards a must-staple build, whose policy is to require it
+        certs = [[]] if kex in ("psk", "dhepsk") else (([[CERT, CSTAT]] if MUST_STAPLE else [[CERT], [CERT, CSTAT]]) if md["ocsp"] else [[CERT]])
         skes = {"rsa": [[]], "ecdhe": [[SKE]], "dhepsk": [[SKE]], "psk": [[], [SKE]]}[kex]
         for c in certs:
             for k in skes:
@@ -175,7 +213,7 @@ class Side:
     """what one receiver accepted so far + the mode its hellos negotiated (read off bytes and implementation flags)"""
     def __init__(self, server, cfg_cauth, sent_ticket):
         self.server, self.cfg_cauth, self.sent_ticket = server, cfg_cauth, sent_ticket
-        self.acc, self.items, self.md, self.hrr_seen, self.done_checked, self.opaque = [], [], None, False, False, False
+        self.acc, self.items, self.md, self.hrr_seen, self.done_checked, self.opaque, self.flagged = [], [], None, False, False, False, False
 
     def cfg_token(self, v13, tick):
         return None
@@ -287,7 +325,7 @@ def canon(line, server):
     if g[2] == "255":
         tk, x = "-", "-"          # bookkeeping after completion (USING_TICKET, RESUMED cleared on a refused renegotiation) is not modelled
     if server:
-        tk = "-"                  # the server's sid object is not the client-side ticket state the gate reads
+        tk, sr = "-", "-"         # the server's sid object / status_request flag are not the client-side state the gate reads
     return "%s v=%s hs=%s R=%s W=%s E=%s x=%s tk=%s sr=%s lc=%s y=%s" % (o, v, g[2], g[3], g[4], g[5], x, tk, sr, lc, y)
 
 
@@ -366,11 +404,13 @@ def run(ck):
 
     # ---------------------------------------------------------------- (i) exhaustive gate sweeps
     g13 = ["gate13 %d %d" % (r, hs) for r in (0, 1) for hs in range(256)]
+    g13_impl, g13_model = [], []
     rc, impl, err = ck.run_lines(h, g13)
     if impl and impl[0].startswith("g13:nohook"):
         ck.obligation("hook:verif_tls13CheckHsState", False, detail="the MATRIXSSL_VERIF hook of pending-fixes/HOOK-C06-tls13CheckHsState.patch is not in the tree")
     else:
         rc, model, _ = ck.run_lines(drv, [c.replace("gate13", "g13") for c in g13])
+        g13_impl, g13_model = impl, model
         ck.correspond("gate13-exhaustive(256 types x 256 states x 2 roles)", g13, impl, model, nontrivial=lambda c, o: o.strip("g13:0") != "")
         ck.cov["evaluations"] += 256 * 512 - 512
         ck.cov["exhaustive"] = True
@@ -390,6 +430,28 @@ def run(ck):
                 ck.log("gate12 DISAGREE %s fb=%d\n   impl  %s\n   model %s" % (g12[i], fb, p[:300], q[:300]))
                 break
     ck.rules.append("gate sweeps: every (role, hsState, message type[, flag subset]) - exhaustive; non-trivial = the gate lets a type through")
+    # cells where the implementation lets a type through that the model refuses: (v13, role, hsState, type) - histories for them come first
+    cells = set()
+    try:
+        for c, a, b in zip(g13, g13_impl, g13_model):
+            if a != b and a.startswith("g13:") and b.startswith("g13:"):
+                _, r, hsx = c.split()
+                ba, bb = bytes.fromhex(a[4:].strip()), bytes.fromhex(b[4:].strip())
+                for m in range(256):
+                    if (ba[m >> 3] >> (m & 7)) & 1 and not (bb[m >> 3] >> (m & 7)) & 1:
+                        cells.add((1, int(r), int(hsx), m))
+        for c, a, b in zip(g12, impl, model):
+            if a != b:
+                _, r, hsx = c.split()
+                for p, q in zip(a.split(" ; "), b.split(" ; ")):
+                    if p != q:
+                        pa = set(re.findall(r"(\d+):p", p)); pb = set(re.findall(r"(\d+):p", q))
+                        for m in pa - pb:
+                            cells.add((0, int(r), int(hsx), int(m)))
+    except Exception as ex:
+        ck.log("gate cells: %r" % (ex,))
+    if cells:
+        ck.log("gate cells the implementation passes and the model refuses (v13, server, hsState, type): %s" % sorted(cells)[:12])
 
     # ---------------------------------------------------------------- corpus: the witnesses of the defects found
     corpus = []
@@ -418,7 +480,7 @@ def run(ck):
         legal_scripts.append(" ; ".join(pre + ["new " + new, "mrun"]))
     rc, outs, err = ck.run_lines(h, SLOT_FILL + legal_scripts, timeout=600)
     outs = outs[len(SLOT_FILL):]
-    scripts, meta = [], []
+    scripts, meta, cons = [], [], []
     for fname, line in corpus:
         scripts.append(line); meta.append(("corpus:" + fname, -1, "corpus"))
     sub_types = [0, 1, 2, 4, 11, 12, 13, 14, 15, 16, 20, 22, 24, 99]
@@ -430,7 +492,12 @@ def run(ck):
         npre = len(pre)
         segs = out.split(" | ")
         steps = parse_steps(segs[npre + 1]) if len(segs) > npre + 1 else []
-        if not steps or not steps[-1].post or not any(s.post["done"] for s in steps):
+        incomplete = name.split("#")[0] in HONEST_INCOMPLETE
+        if incomplete and steps:
+            steps = [s for s in steps if not s.dead_before() and s.kind in ("H", "C")]
+        if incomplete and steps:
+            pass
+        elif not steps or not steps[-1].post or not any(s.post["done"] for s in steps):
             ck.count("legal_trace_failed:" + name)
             ck.log("legal trace of %s did not complete: %s" % (name, out[-300:]))
             ck.obligation("legal-trace:" + name, False, detail="the honest handshake of configuration %s does not complete" % name)
@@ -453,6 +520,44 @@ def run(ck):
                 devs.append(("inj%d" % sl, "mload %s 0 %d" % (d, sl)))
             for dn, cmd in devs:
                 scripts.append(" ; ".join(head + [cmd, "mrun 40"])); meta.append((name, k, dn))
+        # ---- consistent deviations by the sender (its own transcript follows the deviation)
+        def sender_occ(k):
+            snd = steps[k].side
+            return sum(1 for s2 in steps[:k + 1] if s2.side == snd and s2.kind == "H" and s2.t == steps[k].t)
+        cellset = set(c[:3] for c in cells)
+        for k, stp in enumerate(steps):
+            if stp.kind != "H" or stp.t == CH:
+                continue
+            snd = "c" if stp.side == "s" else "s"
+            d = "c2s" if stp.side == "s" else "s2c"
+            tn = NAMES.get(stp.t, str(stp.t))
+            pri = (stp.pre["v"], 1 if stp.side == "s" else 0, stp.pre["hs"]) in cellset
+            cons.append((pri, " ; ".join(base + ["mtamper %s %d %d omit" % (snd, stp.t, sender_occ(k)), "mrun 60"]), (name, k, "omit:" + tn)))
+            for sl in slots_for(d, bool(stp.pre["v"])):
+                sn = NAMES.get(SLOT_TYPE[sl], str(SLOT_TYPE[sl]))
+                cons.append((False, " ; ".join(base + ["mtamper %s %d %d after %d" % (snd, stp.t, sender_occ(k), sl), "mrun 60"]), (name, k, "insert-after-%s:%s(slot%d)" % (tn, sn, sl))))
+                cons.append((False, " ; ".join(base + ["mtamper %s %d %d instead %d" % (snd, stp.t, sender_occ(k), sl), "mrun 60"]), (name, k, "replace-%s:%s(slot%d)" % (tn, sn, sl))))
+        # histories for the disagreeing gate cells: reach the state on this trace, then make the type arrive there consistently
+        for (cv, crole, chs, ct) in sorted(cells):
+            for k, stp in enumerate(steps):
+                if stp.kind != "H" or stp.pre["v"] != cv or (1 if stp.side == "s" else 0) != crole or stp.pre["hs"] != chs or stp.t == ct:
+                    continue
+                snd = "c" if stp.side == "s" else "s"
+                d = "c2s" if stp.side == "s" else "s2c"
+                mine = [i for i in range(k, len(steps)) if steps[i].side == stp.side]
+                later = [j for j in mine if j > k and steps[j].kind == "H" and steps[j].t == ct]
+                if later:
+                    between = [i for i in mine if i < later[0]]
+                    if all(steps[i].kind == "H" and steps[i].t != CH for i in between):
+                        cmds = ["mtamper %s %d %d omit" % (snd, steps[i].t, sender_occ(i)) for i in between]
+                        cons.append((True, " ; ".join(base + cmds + ["mrun 60"]), (name, k, "omit:" + "+".join(NAMES.get(steps[i].t, str(steps[i].t)) for i in between))))
+                for sl in slots_for(d, bool(cv)):
+                    if SLOT_TYPE[sl] == ct:
+                        cons.append((True, " ; ".join(base + ["mtamper %s %d %d instead %d" % (snd, stp.t, sender_occ(k), sl), "mrun 60"]), (name, k, "replace-%s:%s(slot%d)" % (NAMES.get(stp.t, stp.t), NAMES.get(ct, ct), sl))))
+                # the bare type with an empty body, in place (no sender can be consistent with a message it cannot build)
+                cons.append((True, " ; ".join(base + ["md %s" % ("c2s" if s2.side == "s" else "s2c") for s2 in steps[:k]] + ["mins %s 0 %d" % (d, ct), "mrun 40"]), (name, k, "cell-ins%d" % ct)))
+        if incomplete:
+            continue
         # after completion: renegotiation requests, late handshake messages, a further ChangeCipherSpec
         done = base + ["mrun"]
         for d in ("c2s", "s2c"):
@@ -461,7 +566,17 @@ def run(ck):
             scripts.append(" ; ".join(done + ["mins %s 0 ccs" % d, "mrun 6"])); meta.append((name, 99, "post:ccs"))
             for sl in slots_for(d, bool(steps[-1].post["v"])):
                 scripts.append(" ; ".join(done + ["mload %s 0 %d" % (d, sl), "mrun 6"])); meta.append((name, 99, "post:inj%d" % sl))
-    ck.log("live: %d configurations, %d scripts" % (len(legal_len), len(scripts)))
+    # consistent deviations first (those aimed at a disagreeing gate cell before the others): their violations carry the replay
+    seen = set()
+    front_s, front_m = [], []
+    for pri, sc, mt in sorted(cons, key=lambda x: not x[0]):
+        if sc not in seen:
+            seen.add(sc); front_s.append(sc); front_m.append(mt)
+    ncorp = len(corpus)
+    scripts = scripts[:ncorp] + front_s + scripts[ncorp:]
+    meta = meta[:ncorp] + front_m + meta[ncorp:]
+    ck.count("scripts:consistent-deviations", len(front_s))
+    ck.log("live: %d configurations, %d scripts (%d consistent deviations)" % (len(legal_len), len(scripts), len(front_s)))
     outs = run_chunks(ck, h, scripts, meta)
 
     cases, obs, back = [], [], []
@@ -496,12 +611,13 @@ def run(ck):
                     else:
                         side.opaque = True
                 if st.kind in ("H", "C") and st.accepted() and not (st.kind == "C" and st.pre["v"] == 1):
-                    side.acc.append("C" if st.kind == "C" else st.t)
+                    side.acc.append("C" if st.kind == "C" else (CERT0 if (st.t == CERT and side.server and st.l <= 8) else st.t))
                     if st.kind == "H" and st.t == (CH if side.server else SH) and st.g == st.t:
                         md = mode_after_hello(side, st, name)
                         if md is not None:
                             side.md = md
-                    if side.md is not None and not side.opaque and not is_legal_prefix(side.md, side.acc):
+                    if side.md is not None and not side.opaque and not side.flagged and not is_legal_prefix(side.md, side.acc):
+                        side.flagged = True      # the first message outside the grammar is the finding; completion is judged separately
                         seq = ",".join(str(x) for x in side.acc)
                         sig = "accepted-outside-grammar:%s:%s:after=%s:msg=%s" % ("13" if side.md["v13"] else "12", "server" if side.server else "client",
                                                                                    NAMES.get(side.acc[-2], side.acc[-2]) if len(side.acc) > 1 else "-", NAMES.get(side.acc[-1], side.acc[-1]))
@@ -515,7 +631,7 @@ def run(ck):
                     if side.opaque:
                         ck.count("completed:not-judged(opaque records)")
                     elif side.md is None or not is_legal(side.md, side.acc):
-                        sig = "completed-illegal:%s:%s:%s" % ("13" if st.post["v"] else "12", "server" if side.server else "client", seq)
+                        sig = "complete-illegal:%s:%s" % (name, dn)
                         ck.spec_violation(sig, "a %s reported handshake completion after accepting %s, which is not a legal sequence of the negotiated mode" % (
                             "server" if side.server else "client", seq),
                             {"harness": "h_hs", "case": scripts[si], "observed": "complete after: " + seq, "mode": side.md, "expected_by_spec": "no completion"})
